@@ -228,6 +228,18 @@ def run(ctx, idx):
         memo = K.memoised_helpers(idx, d_.execute)
         ctx.ob("C17.h", "%s.execute::no-result-cache" % d_.key, d_.module.rel, (memo[0][0].node.lineno if memo else d_.execute.node.lineno), not memo,
                "no cached helper on the path" if not memo else "`%s` is cached with `@%s`: a column read once is returned again after the file changed" % (memo[0][0].name, memo[0][1]))
+    ctx.rule("C17.j", "The column read is the one whose header IS the requested field name: the header row is searched with the name as given - no case folding or trimming of either side (two headers that differ only by case are distinct result names; folding returns the first of them for both).")
+    fi_r = rd[0].execute
+    lookups = [n_ for n_ in ast.walk(fi_r.node) if isinstance(n_, ast.Call) and isinstance(n_.func, ast.Attribute) and n_.func.attr == "index" and len(n_.args) == 1]
+    FOLD = ("lower", "upper", "casefold", "strip", "lstrip", "rstrip", "title", "capitalize", "replace", "swapcase")
+    for n_ in lookups:
+        both = K.src(K.expand(fi_r, n_.func.value)) + " " + K.src(K.expand(fi_r, n_.args[0]))
+        if "InFieldName" not in both and "field" not in both.lower():
+            continue
+        folded = [m_ for m_ in FOLD if ("." + m_ + "(") in both]
+        ctx.ob("C17.j", "%s.execute::header-lookup" % rd[0].key, rd[0].module.rel, n_.lineno, not folded,
+               "the header row is searched for the field name as given" if not folded else
+               "`%s` compares %s forms of the header names and the field name: of two columns whose names differ only in that respect (`elev` / `Elev`) the first one is returned for both, with its values and its missing cells" % (K.src(n_)[:60], "/".join(folded)))
     ctx.rule("C17.i", "The table format is fixed: csv.reader / csv.writer are given the line source (and constant format options) only - no dialect sniffed from the data, no delimiter computed at run time. A guessed delimiter turns a one-column table of decimals into two columns at the decimal point.")
     n_csv = 0
     undecided_ = []
